@@ -40,4 +40,12 @@ REGEX_RULES = {
             r'vq_map_second(\1)',
             'ZF4: `RECV.map(|(_, v)| v)` -> `vq_map_second(RECV)`: verified prelude function whose body is '
             'the definition of Result::map applied to the second projection (cf. R11)'),
+    # Verus does not accept `_` as a closure parameter; `_e` is the same unused binder.
+    'ZF5': (r'\|\s*_\s*\|', r'|_e|',
+            'ZF5: closure parameter `_` -> `_e` (an unused binder under another name; Verus does not accept `_` closure parameters)'),
+    # iterator adaptor `all` over a fixed array with a function item: replaced by a VERIFIED prelude
+    # function whose loop is the definition of `Iterator::all` (conjunction over the elements in order).
+    'ZF6': (r'(\w+)\.iter\(\)\.all\(\s*u8::is_ascii_digit\s*\)', r'vq_all_ascii_digits(&\1)',
+            'ZF6: `ARR.iter().all(u8::is_ascii_digit)` -> `vq_all_ascii_digits(&ARR)`: verified prelude function '
+            '(loop over the slice = definition of Iterator::all; cf. R11)'),
 }
